@@ -41,13 +41,27 @@ def _is_leaf(e):
 class Normalizer:
     """rules: list of (z3 var, z3 rhs expr) meaning var*var == rhs"""
 
-    def __init__(self, rules, max_terms=60000, recips=()):
+    def __init__(self, rules, max_terms=60000, recips=(), budget_s=20.0):
+        import time as _t
+        self.deadline = _t.time() + budget_s
         # entries (v, rhs) mean v*v == rhs; entries (v, rhs, 'subst') mean v == rhs (v is replaced)
         self.substs = {r[0].get_id(): r[1] for r in rules if len(r) == 3}
         rules = [r[:2] for r in rules if len(r) == 2]
         self.rules_z3 = rules
         self.max_terms = max_terms
         self.recips = list(recips)     # (z3 var rho, z3 expr b) with rho*b == 1 and b != 0 asserted
+
+    def _mul(self, a, b):
+        """product with a work bound: sympy's multiplication is atomic, so refuse what would take minutes"""
+        if len(a) * len(b) > 400000:
+            raise TooBig('product too large')
+        self._tick()
+        return a * b
+
+    def _tick(self):
+        import time as _t
+        if _t.time() > self.deadline:
+            raise TooBig('time budget')
 
     def _collect(self, exprs):
         leaves, seen = {}, set()
@@ -91,7 +105,7 @@ class Normalizer:
         def rhs_pow(ri, k):
             key = (ri, k)
             if key not in rpow:
-                rpow[key] = rules[ri][1] if k == 1 else reduce(rhs_pow(ri, k - 1) * rules[ri][1])
+                rpow[key] = rules[ri][1] if k == 1 else reduce(self._mul(rhs_pow(ri, k - 1), rules[ri][1]))
             return rpow[key]
 
         def reduce(p):
@@ -111,9 +125,10 @@ class Normalizer:
                         keep[mon] = coeff
                 if not groups:
                     return p
+                self._tick()
                 out = R.from_dict(keep)
                 for (ri, k), g in groups.items():
-                    out = out + R.from_dict({m: c for m, c in g.items() if c}) * rhs_pow(ri, k)
+                    out = out + self._mul(R.from_dict({m: c for m, c in g.items() if c}), rhs_pow(ri, k))
                 p = out
                 if len(p) > self.max_terms:
                     raise TooBig(len(p))
@@ -147,13 +162,13 @@ class Normalizer:
                 elif k == z3.Z3_OP_MUL:
                     r = R(1)
                     for c in ch:
-                        r = reduce(r * conv(c))
+                        r = reduce(self._mul(r, conv(c)))
                 elif k == z3.Z3_OP_POWER:
                     n = ch[1].as_fraction().numerator
                     b = conv(ch[0])
                     r = R(1)
                     for _ in range(n):
-                        r = reduce(r * b)
+                        r = reduce(self._mul(r, b))
                 elif k == z3.Z3_OP_DIV:
                     f = ch[1].as_fraction()
                     r = conv(ch[0]) * R(QQ(f.denominator, f.numerator))
@@ -161,6 +176,7 @@ class Normalizer:
                     raise TooBig('unexpected node')
             if len(r) > self.max_terms:
                 raise TooBig(len(r))
+            self._tick()
             memo[i] = r
             return r
 
@@ -184,7 +200,7 @@ class Normalizer:
                     continue
                 bp = {0: R(1)}
                 for k in range(1, d + 1):
-                    bp[k] = reduce(bp[k - 1] * B)
+                    bp[k] = reduce(self._mul(bp[k - 1], B))
                 groups = {}
                 for mon, coeff in p.items():
                     k = mon[ri]
@@ -192,7 +208,8 @@ class Normalizer:
                     g[mon[:ri] + (0,) + mon[ri + 1:]] = coeff
                 q = R(0)
                 for e, g in groups.items():
-                    q = q + reduce(R.from_dict(g) * bp[e])
+                    self._tick()
+                    q = q + reduce(self._mul(R.from_dict(g), bp[e]))
                 p = reduce(q)
                 if len(p) > self.max_terms:
                     raise TooBig(len(p))
@@ -237,8 +254,12 @@ def normalize_eq(rules, lhs, rhs, max_terms=60000, recips=()):
 
 def which_zero(rules, exprs, max_terms=20000, recips=()):
     """index of the first expression that normalises to 0, else None"""
+    return _which_zero(rules, exprs, max_terms, recips)
+
+
+def _which_zero(rules, exprs, max_terms=20000, recips=()):
     try:
-        res = Normalizer(rules, max_terms, recips).normal_forms(exprs, clear_den=bool(recips), want_exprs=False)
+        res = Normalizer(rules, max_terms, recips, budget_s=5.0).normal_forms(exprs, clear_den=bool(recips), want_exprs=False)
     except TooBig:
         return None
     for k, (_, z) in enumerate(res):
